@@ -5,7 +5,7 @@ from vlib.common import *
 
 def cc(out, srcs, variant, extra=(), san='address'):
     S = build(variant)
-    out = os.path.join(VERIF, 'build/bin', out)
+    out = os.path.join(BUILD, 'bin', out)
     os.makedirs(os.path.dirname(out), exist_ok=True)
     cmd = ['gcc', '-O1', '-g', '-fsanitize=' + san, '-fno-omit-frame-pointer', '-w', '-I%s/lib' % S, '-I%s/lib/ext2fs' % S,
            '-I' + os.path.join(VERIF, 'engines'), '-o', out] + [os.path.join(VERIF, x) for x in srcs] + list(extra) + \
@@ -214,7 +214,7 @@ def main(tier, only=None):
         if jobs and created == 0:
             ck.violation('B3:vacuous', {'what': 'no TSan run created threads'})
     ck.add(rule='A: BFS over channel histories (112-op alphabet) de-duplicated on the channel control state, every transition executed on the real unix_io.c over an in-memory '
-                'device and checked against a byte-array model, plus every single injected device-write failure for every history up to the fault depth; '
+                'device and checked against a byte-array model, plus, for every history up to the fault depth and every k, the k-th device write call failing once, together with the next call (a pwrite and its lseek+write fallback), and from then on (a flush/close that reports success while nothing has reported an error must have made the backing file current); '
                 'B1: all thread counts x geometries differential; B2: all schedules with <= N preemptions over hooked pthread/pread points; B3: TSan free-running')
     ck.assumptions += ['part A: 16 KiB device, blocks {0,1,5,6,9,10,11}, block sizes 1k/2k; cache on/off is not toggled mid-history; sequentially consistent memory',
                        'part B: images made by the tree\'s own mke2fs (only used differentially: n threads vs 1 thread on the same image); scheduling points at mutex_lock/pread64/create/join/exit; '
@@ -226,7 +226,7 @@ def replay(path):
     if d.get('part') == 'A':
         exe = cc('iochanx', ['engines/iochanx.c'], 'asan')
         argv = [exe, d['mode'], '0', '0', '10', '--replay', ','.join(map(str, d['history_ids']))]
-        if 'fail' in d: argv += ['--fail', str(d['fail'])]
+        if 'fail' in d: argv += ['--fail', str(d['fail'])] + (['--sticky', str(d['sticky'])] if d.get('sticky') else [])
         r = subprocess.run(argv, env=ENV)
         print('replay verdict:', 'VIOLATION reproduced' if r.returncode else 'no violation')
         return 1 if r.returncode else 0
